@@ -288,6 +288,10 @@ class SandboxedEnvironment(Environment):
         This also recognizes the Django convention of setting
         ``func.alters_data = True``.
         """
+        # A functools.partial runs the callable it wraps.
+        if isinstance(obj, partial) and not self.is_safe_callable(obj.func):
+            return False
+
         # An instance is called through its class's __call__ method, which
         # can carry the markers as well.
         call = getattr(type(obj), "__call__", None)
